@@ -7,6 +7,7 @@
                           (i8 u8 i16 u16 i32 u32), read by the real ppci.irutils.read_module
   u:<ty>:<op>             IR text: unary - / ~ on a narrow type, operand reused afterwards
   c:<t1>:<t2>             IR text: cast t1 -> t2
+  f:<N>                   int t[N] on the stack, first and last element used (frame sizes around the 12-bit offset edge)
   s:<name>                ABI / frame shapes written out below
 """
 from corpus import cprogs
@@ -164,6 +165,9 @@ def get(name):
         T = "int" if ty == "int" else "unsigned"
         e = f"x {op} {_clit(K, ty)}" if side == "xk" else f"{_clit(K, ty)} {op} x"
         return f"{T} f({T} x) {{ return {e}; }}\n", "c", "f", []
+    if parts[0] == "f":
+        n = int(parts[1])
+        return (f"int f(int a, int b) {{ int t[{n}]; t[0] = a; t[{n - 1}] = b; return t[(a & 1) * {n - 1}] - b; }}\n", "c", "f", [])
     if parts[0] == "n":
         return _ir_binop(parts[1], parts[2]), "ir", "f", []
     if parts[0] == "u":
@@ -210,8 +214,11 @@ def n_names(tier):
     return out
 
 
+FRAME_WORDS = [100, 480, 500, 504, 505, 506, 507, 508, 509, 510, 511, 512, 600]
+
+
 def names(tier):
-    return sorted(cprogs.PROGS) + sorted(SHAPES) + k_names(tier) + n_names(tier)
+    return sorted(cprogs.PROGS) + sorted(SHAPES) + k_names(tier) + n_names(tier) + [f"f:{n}" for n in FRAME_WORDS]
 
 
 def family(name):
